@@ -1979,8 +1979,10 @@ impl<E: Effect> Executor<E> {
         let first = &values[0];
         let all_equal = values.iter().all(|value| self.values_equal(first, value));
 
+        // The result is a verdict (the compiler follows Equal with Not + JumpIf). Pushing the
+        // compared value itself would make equal nil values look like a mismatch.
         let result = if all_equal {
-            first.clone()
+            Value::ok()
         } else {
             Value::nil()
         };
